@@ -1003,25 +1003,10 @@ func TestCheck(t *testing.T) {
 				}
 				cont, _ := v.Detail.([]string)
 				what := v.What
-				// shortest witness: drop moves while the same key is still reported three times out of three
-				for changed := true; changed; {
-					changed = false
-					for i := range cont {
-						cand := append(append([]string{}, cont[:i]...), cont[i+1:]...)
-						okAll := true
-						w2 := ""
-						for k := 0; k < 3 && okAll; k++ {
-							f, _, err := runAW(msl, cand)
-							okAll = err == nil && f != nil && f.key == v.Key
-							if okAll {
-								w2 = f.what
-							}
-						}
-						if okAll {
-							cont, what, changed = cand, w2, true
-							break
-						}
-					}
+				// the witness reported is the first failing continuation in length-then-offer order, so that
+				// it is the same in every run
+				if w, wh := awFirstWitness(msl, v.Key, len(cont)); w != nil {
+					cont, what = w, wh
 				}
 				viol[v.Key] = hres.Viol{Key: v.Key, What: what, Replay: replay{Key: v.Key, AW: cont, IsAW: true, What: what}}
 			}
